@@ -35,6 +35,12 @@ type Write struct {
 	Target string
 	// Field: first field selected on the root variable on the way to the written location ("" if unknown)
 	Field string
+	// Expr: the expression through which the write happens in this function (store target, receiver or argument)
+	Expr ast.Expr
+	// Call / Callee / CalleeParam: for writes performed by a callee, the call, the analysed callee and its parameter
+	Call        *ast.CallExpr
+	Callee      *Func
+	CalleeParam types.Object
 	BaseHops int // reference crossings already contained in the expression whose roots the write was attributed to
 }
 
@@ -753,7 +759,7 @@ func (e *Engine) analyse(f *Func) bool {
 					continue
 				}
 				if c.throughRef(l) {
-					addW(c.rootsAt(baseOfStore(l), l.Pos()), Write{Pos: l.Pos(), Path: text(l), Idx: indexExprs(l), Node: s, Hops: c.hops(l), BaseHops: c.hops(baseOfStore(l)), Target: targetOf(c.info, l), Field: firstField(l)})
+					addW(c.rootsAt(baseOfStore(l), l.Pos()), Write{Pos: l.Pos(), Path: text(l), Expr: l, Idx: indexExprs(l), Node: s, Hops: c.hops(l), BaseHops: c.storeBaseHops(l), Target: targetOf(c.info, l), Field: firstField(l)})
 				} else {
 					// field of a captured struct variable
 					if id := identOf(baseOf(l)); id != nil {
@@ -765,7 +771,7 @@ func (e *Engine) analyse(f *Func) bool {
 			}
 		case *ast.IncDecStmt:
 			if identOf(s.X) == nil && c.throughRef(s.X) {
-				addW(c.rootsAt(baseOfStore(s.X), s.Pos()), Write{Pos: s.Pos(), Path: text(s.X), Idx: indexExprs(s.X), Node: s, Hops: c.hops(s.X), BaseHops: c.hops(baseOfStore(s.X)), Target: targetOf(c.info, s.X), Field: firstField(s.X)})
+				addW(c.rootsAt(baseOfStore(s.X), s.Pos()), Write{Pos: s.Pos(), Path: text(s.X), Expr: s.X, Idx: indexExprs(s.X), Node: s, Hops: c.hops(s.X), BaseHops: c.storeBaseHops(s.X), Target: targetOf(c.info, s.X), Field: firstField(s.X)})
 			} else if id := identOf(s.X); id != nil {
 				if vo, ok := c.info.Uses[id].(*types.Var); ok && !f.declares(vo) {
 					addW(map[types.Object]int{vo: 0}, Write{Pos: s.Pos(), Path: text(s.X), Node: s, Hops: 1})
@@ -984,14 +990,22 @@ func (c *fnCtx) callWrites(call *ast.CallExpr, addW func(map[types.Object]int, W
 			switch id.Name {
 			case "copy":
 				if len(call.Args) == 2 {
-					addW(c.rootsAt(call.Args[0], call.Pos()), Write{Pos: call.Pos(), Path: "copy(" + text(call.Args[0]) + ", …)", Idx: indexExprs(call.Args[0]), Node: call, Hops: c.hops(call.Args[0]) + 1, BaseHops: c.hops(call.Args[0]), Target: exprTypeName(c.info, call.Args[0])})
+					addW(c.rootsAt(call.Args[0], call.Pos()), Write{Pos: call.Pos(), Path: "copy(" + text(call.Args[0]) + ", …)", Expr: call.Args[0], Idx: indexExprs(call.Args[0]), Node: call, Hops: c.hops(call.Args[0]) + 1, BaseHops: c.hops(call.Args[0]), Target: exprTypeName(c.info, call.Args[0])})
 				}
 			case "delete":
 				if len(call.Args) == 2 {
-					addW(c.rootsAt(call.Args[0], call.Pos()), Write{Pos: call.Pos(), Path: "delete(" + text(call.Args[0]) + ", …)", Idx: append(indexExprs(call.Args[0]), call.Args[1]), Node: call, Hops: c.hops(call.Args[0]) + 1, BaseHops: c.hops(call.Args[0]), Target: exprTypeName(c.info, call.Args[0])})
+					addW(c.rootsAt(call.Args[0], call.Pos()), Write{Pos: call.Pos(), Path: "delete(" + text(call.Args[0]) + ", …)", Expr: call.Args[0], Idx: append(indexExprs(call.Args[0]), call.Args[1]), Node: call, Hops: c.hops(call.Args[0]) + 1, BaseHops: c.hops(call.Args[0]), Target: exprTypeName(c.info, call.Args[0])})
 				}
 			}
 			return
+		}
+	}
+	// X.Map(func(x Scalar) { ... writes x ... }): the callback is applied to references to the elements of X
+	if recvExpr != nil && name == "Map" && len(call.Args) == 1 {
+		if lit, ok := ast.Unparen(call.Args[0]).(*ast.FuncLit); ok {
+			if g, ok := c.e.Lits[lit]; ok && len(g.Params) > 0 && g.Params[0] != nil && len(g.Writes[g.Params[0]]) > 0 {
+				addW(c.rootsAt(recvExpr, call.Pos()), Write{Pos: call.Pos(), Path: text(recvExpr) + ".Map(callback writing its argument)", Expr: recvExpr, Call: call, Idx: indexExprs(recvExpr), Node: call, Hops: 1 + c.hops(recvExpr), BaseHops: c.hops(recvExpr), Target: exprTypeName(c.info, recvExpr), Field: firstField(recvExpr)})
+			}
 		}
 	}
 	if callee != nil {
@@ -1040,7 +1054,7 @@ func (c *fnCtx) callWrites(call *ast.CallExpr, addW func(map[types.Object]int, W
 						if la {
 							h--
 						}
-						addW(c.rootsField(recvExpr, call.Pos(), w.Field), Write{Pos: call.Pos(), Path: text(recvExpr) + "." + name + "()", Via: append([]string{g.Name}, w.Via...), Idx: indexExprs(recvExpr), Node: call, Hops: h + c.hops(recvExpr), BaseHops: c.hops(recvExpr), Target: w.Target, Field: fieldThrough(recvExpr, w.Field)})
+						addW(c.rootsField(recvExpr, call.Pos(), w.Field), Write{Pos: call.Pos(), Path: text(recvExpr) + "." + name + "()", Expr: recvExpr, Call: call, Callee: g, CalleeParam: g.Params[0], Via: append([]string{g.Name}, w.Via...), Idx: indexExprs(recvExpr), Node: call, Hops: h + c.hops(recvExpr), BaseHops: c.hops(recvExpr), Target: w.Target, Field: fieldThrough(recvExpr, w.Field)})
 					}
 				}
 				k = 1
@@ -1053,7 +1067,7 @@ func (c *fnCtx) callWrites(call *ast.CallExpr, addW func(map[types.Object]int, W
 						if la {
 							h--
 						}
-						addW(c.rootsField(a, call.Pos(), w.Field), Write{Pos: call.Pos(), Path: text(a) + " passed to " + name, Via: append([]string{g.Name}, w.Via...), Idx: indexExprs(a), Node: call, Hops: h + c.hops(a), BaseHops: c.hops(a), Target: w.Target, Field: fieldThrough(a, w.Field)})
+						addW(c.rootsField(a, call.Pos(), w.Field), Write{Pos: call.Pos(), Path: text(a) + " passed to " + name, Expr: a, Call: call, Callee: g, CalleeParam: g.Params[k+i], Via: append([]string{g.Name}, w.Via...), Idx: indexExprs(a), Node: call, Hops: h + c.hops(a), BaseHops: c.hops(a), Target: w.Target, Field: fieldThrough(a, w.Field)})
 					}
 				}
 			}
@@ -1111,7 +1125,7 @@ func (c *fnCtx) callWrites(call *ast.CallExpr, addW func(map[types.Object]int, W
 					for _, w := range g.Writes[g.Params[0]] {
 						if w.Hops >= 1 && !seenT[w.Target] {
 							seenT[w.Target] = true
-							addW(c.rootsField(recvExpr, call.Pos(), w.Field), Write{Pos: call.Pos(), Path: text(recvExpr) + "." + name + "()", Via: append([]string{g.Name}, w.Via...), Idx: indexExprs(recvExpr), Node: call, Hops: w.Hops + c.hops(recvExpr), BaseHops: c.hops(recvExpr), Target: w.Target, Field: fieldThrough(recvExpr, w.Field)})
+							addW(c.rootsField(recvExpr, call.Pos(), w.Field), Write{Pos: call.Pos(), Path: text(recvExpr) + "." + name + "()", Expr: recvExpr, Call: call, Callee: g, CalleeParam: g.Params[0], Via: append([]string{g.Name}, w.Via...), Idx: indexExprs(recvExpr), Node: call, Hops: w.Hops + c.hops(recvExpr), BaseHops: c.hops(recvExpr), Target: w.Target, Field: fieldThrough(recvExpr, w.Field)})
 						}
 					}
 				}
@@ -1121,7 +1135,7 @@ func (c *fnCtx) callWrites(call *ast.CallExpr, addW func(map[types.Object]int, W
 						for _, w := range g.Writes[g.Params[1+i]] {
 							if w.Hops >= 1 && !seenT[w.Target] {
 								seenT[w.Target] = true
-								addW(c.rootsField(a, call.Pos(), w.Field), Write{Pos: call.Pos(), Path: text(a) + " passed to " + name, Via: append([]string{g.Name}, w.Via...), Idx: indexExprs(a), Node: call, Hops: w.Hops + c.hops(a), BaseHops: c.hops(a), Target: w.Target, Field: fieldThrough(a, w.Field)})
+								addW(c.rootsField(a, call.Pos(), w.Field), Write{Pos: call.Pos(), Path: text(a) + " passed to " + name, Expr: a, Call: call, Callee: g, CalleeParam: g.Params[1+i], Via: append([]string{g.Name}, w.Via...), Idx: indexExprs(a), Node: call, Hops: w.Hops + c.hops(a), BaseHops: c.hops(a), Target: w.Target, Field: fieldThrough(a, w.Field)})
 							}
 						}
 					}
@@ -1133,14 +1147,14 @@ func (c *fnCtx) callWrites(call *ast.CallExpr, addW func(map[types.Object]int, W
 			return // external method: assumed not to write (stated assumption), except table above
 		}
 		if !c.e.constSet[name] && !isFreshName(name) && !derivingMethods[name] && !readOnlyIfaceMethods[name] {
-			addW(c.rootsAt(recvExpr, call.Pos()), Write{Pos: call.Pos(), Path: text(recvExpr) + "." + name + "() [interface]", Idx: indexExprs(recvExpr), Node: call, Hops: 1 + c.hops(recvExpr), BaseHops: c.hops(recvExpr), Target: exprTypeName(c.info, recvExpr), Field: firstField(recvExpr)})
+			addW(c.rootsAt(recvExpr, call.Pos()), Write{Pos: call.Pos(), Path: text(recvExpr) + "." + name + "() [interface]", Expr: recvExpr, Call: call, Idx: indexExprs(recvExpr), Node: call, Hops: 1 + c.hops(recvExpr), BaseHops: c.hops(recvExpr), Target: exprTypeName(c.info, recvExpr), Field: firstField(recvExpr)})
 		}
 		// arguments received by a mutable interface type are written (temporaries)
 		sig := callee.Type().(*types.Signature)
 		for i, a := range call.Args {
 			if i < sig.Params().Len() {
 				if n := namedName(sig.Params().At(i).Type()); n == "Scalar" || n == "Vector" || n == "Matrix" || n == "MagicScalar" || n == "MagicVector" || n == "MagicMatrix" {
-					addW(c.rootsAt(a, call.Pos()), Write{Pos: call.Pos(), Path: text(a) + " passed as mutable " + n + " to " + name, Idx: indexExprs(a), Node: call, Hops: 1 + c.hops(a), BaseHops: c.hops(a), Target: n, Field: firstField(a)})
+					addW(c.rootsAt(a, call.Pos()), Write{Pos: call.Pos(), Path: text(a) + " passed as mutable " + n + " to " + name, Expr: a, Call: call, Idx: indexExprs(a), Node: call, Hops: 1 + c.hops(a), BaseHops: c.hops(a), Target: n, Field: firstField(a)})
 				}
 			}
 		}
@@ -1496,4 +1510,37 @@ func (e *Engine) CalleeWrites(info *types.Info, call *ast.CallExpr, k int) (know
 		return true, false
 	}
 	return false, false
+}
+
+// Parent returns the function a literal is nested in (nil for declared functions).
+func (f *Func) Parent() *Func { return f.parent }
+
+// RootsOf evaluates the may-alias roots of an expression of f.
+func (f *Func) RootsOf(e *Engine, x ast.Expr) map[types.Object]int {
+	c := &fnCtx{e: e, f: f, info: f.Pkg.TypesInfo}
+	return c.rootsAt(x, x.Pos())
+}
+
+// Declares reports whether o is declared inside f (parameters included).
+func (f *Func) Declares(o types.Object) bool { return f.declares(o) }
+
+// IsParam reports whether o is a parameter (or receiver) of f.
+func (f *Func) IsParam(o types.Object) bool { return f.isParam(o) }
+
+// storeBaseHops: reference crossings contained in the base of a store target, as far as they are already reflected in
+// the distance of the base's roots. A base of value type (a struct element tmp[k], a dereferenced struct) is itself a
+// location inside the storage its last crossing leads to, so that crossing still counts for the store.
+func (c *fnCtx) storeBaseHops(l ast.Expr) int {
+	b := baseOfStore(l)
+	h := c.hops(b)
+	if h > 0 {
+		if tv, ok := c.info.Types[b]; ok {
+			switch tv.Type.Underlying().(type) {
+			case *types.Pointer, *types.Slice, *types.Map, *types.Interface, *types.Chan:
+			default:
+				h--
+			}
+		}
+	}
+	return h
 }
